@@ -1097,6 +1097,10 @@ func (c *c20Fn) classify(e ast.Expr, at ast.Node, depth int) (*c20Val, error) {
 				// … except label listings, which read back what clients stored
 				return &c20Val{kind: "list", src: "stored", name: "labels:" + g.name}, nil
 			}
+			// … unless what it returns is computed from a parameter that receives a client value
+			if src := c.returnsClientArg(g, v, at, depth); src != "" {
+				return &c20Val{kind: "str", src: src, ex: &c20Expr{Op: "opaque", Name: c20Text(e)}}, nil
+			}
 			return srv, nil
 		}
 		if se, ok := v.Fun.(*ast.SelectorExpr); ok {
@@ -1136,6 +1140,121 @@ func (c *c20Fn) classify(e ast.Expr, at ast.Node, depth int) (*c20Val, error) {
 		return c.classify(v.X, at, depth+1)
 	}
 	return nil, c.errf(e, "expression %s is not understood", c20Text(e))
+}
+
+// returnsClientArg: does callee g return something computed from a parameter bound to a client value?
+func (c *c20Fn) returnsClientArg(g *c20Func, call *ast.CallExpr, at ast.Node, depth int) string {
+	// parameters of g that receive client-derived arguments
+	tainted := map[string]string{}
+	i := 0
+	if g.decl.Type.Params != nil {
+		for _, fl := range g.decl.Type.Params.List {
+			for _, nm := range fl.Names {
+				if i < len(call.Args) {
+					if r, err := c.classify(call.Args[i], at, depth+1); err == nil && r.kind != "srv" && r.kind != "none" {
+						src := r.src
+						if src == "" {
+							src = "client"
+						}
+						tainted[nm.Name] = src
+					}
+				}
+				i++
+			}
+		}
+	}
+	if len(tainted) == 0 {
+		return ""
+	}
+	// propagate through assignments in g (to a fixed point), but not through comparisons
+	mentions := func(e ast.Expr) string {
+		found := ""
+		ast.Inspect(e, func(n ast.Node) bool {
+			if be, ok := n.(*ast.BinaryExpr); ok {
+				switch be.Op {
+				case token.EQL, token.NEQ, token.LSS, token.GTR, token.LEQ, token.GEQ:
+					return false
+				}
+			}
+			if id, ok := n.(*ast.Ident); ok {
+				if s, ok := tainted[id.Name]; ok && found == "" {
+					found = s
+				}
+			}
+			return true
+		})
+		return found
+	}
+	for changed := true; changed; {
+		changed = false
+		ast.Inspect(g.decl.Body, func(n ast.Node) bool {
+			if as, ok := n.(*ast.AssignStmt); ok {
+				for i, l := range as.Lhs {
+					id, ok := l.(*ast.Ident)
+					if !ok || id.Name == "_" {
+						continue
+					}
+					var rhs ast.Expr
+					if len(as.Rhs) == len(as.Lhs) {
+						rhs = as.Rhs[i]
+					} else if len(as.Rhs) == 1 {
+						rhs = as.Rhs[0]
+					}
+					if rhs == nil {
+						continue
+					}
+					if _, done := tainted[id.Name]; done {
+						continue
+					}
+					// a same-package lookup keyed by the value is not the value
+					if ce, ok := rhs.(*ast.CallExpr); ok && c.p.callee(ce, g) != nil {
+						continue
+					}
+					if ce, ok := rhs.(*ast.CallExpr); ok {
+						if _, _, isDB := c20IsDBCall(ce); isDB {
+							continue
+						}
+					}
+					if s := mentions(rhs); s != "" {
+						tainted[id.Name] = s
+						changed = true
+					}
+				}
+			}
+			return true
+		})
+	}
+	res := ""
+	var resTypes []string
+	if g.decl.Type.Results != nil {
+		for _, fl := range g.decl.Type.Results.List {
+			k := len(fl.Names)
+			if k == 0 {
+				k = 1
+			}
+			for j := 0; j < k; j++ {
+				resTypes = append(resTypes, c20Text(fl.Type))
+			}
+		}
+	}
+	ast.Inspect(g.decl.Body, func(n ast.Node) bool {
+		if _, ok := n.(*ast.FuncLit); ok {
+			return false
+		}
+		if rs, ok := n.(*ast.ReturnStmt); ok {
+			for ri, r := range rs.Results {
+				// only string results carry a client string (struct results: field provenance is not tracked)
+				if ri >= len(resTypes) || resTypes[ri] != "string" {
+					continue
+				}
+				if s := mentions(r); s != "" && res == "" {
+					res = s
+				}
+			}
+		}
+		return true
+	})
+	return res
 }
 
 func (c *c20Fn) isLocalOrRecv(name string) bool {
